@@ -57,8 +57,13 @@ type Field struct {
 	Rep bool   `json:"rep,omitempty"` // []T (repeated, never packed)
 	Ptr bool   `json:"ptr,omitempty"` // message by pointer (*M, []*M, map[K]*M)
 	Msg int    `json:"msg,omitempty"` // index in Schema.Msgs for K==KMsg or Val==KMsg
-	Key Kind   `json:"key,omitempty"` // KMap: key kind
-	Val Kind   `json:"val,omitempty"` // KMap: value kind (scalar, bytes or msg)
+	// Impl: the Go type of the message slot is not a plain struct but a
+	// struct-kind type that encodes itself: "pm" = PMsg (implements
+	// proto.Message), "cm" = CMsg (gogo-style custom interface). Msgs[Msg] must
+	// then be ImplMessage(); the reference sees an ordinary nested message.
+	Impl string `json:"impl,omitempty"`
+	Key  Kind   `json:"key,omitempty"` // KMap: key kind
+	Val  Kind   `json:"val,omitempty"` // KMap: value kind (scalar, bytes or msg)
 }
 
 // Message is one message type. Tagged: every field carries a protobuf struct
@@ -137,7 +142,19 @@ func (s *Schema) Validate() error {
 				if f.Msg <= mi || f.Msg >= len(s.Msgs) {
 					return fmt.Errorf("msg %d field %d: bad message ref %d", mi, i, f.Msg)
 				}
+				switch f.Impl {
+				case "":
+				case "pm", "cm":
+					if !reflect.DeepEqual(s.Msgs[f.Msg], ImplMessage()) {
+						return fmt.Errorf("msg %d field %d: impl %q needs Msgs[%d] to be the ImplMessage shape", mi, i, f.Impl, f.Msg)
+					}
+				default:
+					return fmt.Errorf("msg %d field %d: bad impl %q", mi, i, f.Impl)
+				}
 				return nil
+			}
+			if f.Impl != "" && f.K != KMsg && !(f.K == KMap && f.Val == KMsg) {
+				return fmt.Errorf("msg %d field %d: impl on a non-message slot", mi, i)
 			}
 			switch f.K {
 			case KMsg:
@@ -177,7 +194,7 @@ func (s *Schema) Validate() error {
 func (f *Field) EntryMessage() *Message {
 	return &Message{Tagged: true, Fields: []Field{
 		{Num: 1, K: f.Key},
-		{Num: 2, K: f.Val, Msg: f.Msg, Ptr: f.Ptr},
+		{Num: 2, K: f.Val, Msg: f.Msg, Ptr: f.Ptr, Impl: f.Impl},
 	}}
 }
 
@@ -278,22 +295,34 @@ func Build(s *Schema) (*Built, error) {
 	return b, nil
 }
 
-func (b *Built) msgType(mi int, ptr bool) reflect.Type {
-	if ptr {
-		return reflect.PointerTo(b.Go[mi])
+var (
+	pmsgType = reflect.TypeOf(PMsg{})
+	cmsgType = reflect.TypeOf(CMsg{})
+)
+
+func (b *Built) msgType(mi int, ptr bool, impl string) reflect.Type {
+	t := b.Go[mi]
+	switch impl {
+	case "pm":
+		t = pmsgType
+	case "cm":
+		t = cmsgType
 	}
-	return b.Go[mi]
+	if ptr {
+		return reflect.PointerTo(t)
+	}
+	return t
 }
 
 func (b *Built) goFieldType(f *Field) reflect.Type {
 	var t reflect.Type
 	switch f.K {
 	case KMsg:
-		t = b.msgType(f.Msg, f.Ptr)
+		t = b.msgType(f.Msg, f.Ptr, f.Impl)
 	case KMap:
 		var v reflect.Type
 		if f.Val == KMsg {
-			v = b.msgType(f.Msg, f.Ptr)
+			v = b.msgType(f.Msg, f.Ptr, f.Impl)
 		} else {
 			v = goKinds[f.Val]
 		}
@@ -482,6 +511,16 @@ func (b *Built) CheckTypeOf() (err error) {
 				diffs = append(diffs, fmt.Sprintf("%s: repeated %v, want %v", p, tf.Repeated, f.Rep))
 			}
 			wk, _ := wantSegKind(f.K, f.Opt)
+			if f.K == KMsg && f.Impl != "" {
+				// self-encoding types are opaque to TypeOf: a proto.Message
+				// implementer is a field-less message named "bytes", a custom
+				// type is bytes (same wire type as the nested message it writes)
+				ok := (f.Impl == "pm" && tf.Type.Kind() == segproto.Struct && tf.Type.NumField() == 0) || (f.Impl == "cm" && tf.Type.Kind() == segproto.Bytes)
+				if !ok {
+					diffs = append(diffs, fmt.Sprintf("%s: kind %v (%s) for self-encoding %s", p, tf.Type.Kind(), tf.Type.Name(), f.Impl))
+				}
+				continue
+			}
 			if tf.Type.Kind() != wk {
 				diffs = append(diffs, fmt.Sprintf("%s: kind %v (%s), want %v", p, tf.Type.Kind(), tf.Type.Name(), wk))
 				continue
@@ -495,7 +534,12 @@ func (b *Built) CheckTypeOf() (err error) {
 				if tf.Type.Key().Kind() != kk {
 					diffs = append(diffs, fmt.Sprintf("%s: map key kind %v, want %v", p, tf.Type.Key().Kind(), kk))
 				}
-				if tf.Type.Elem().Kind() != vk {
+				if f.Val == KMsg && f.Impl != "" {
+					ek := tf.Type.Elem().Kind()
+					if !((f.Impl == "pm" && ek == segproto.Struct && tf.Type.Elem().NumField() == 0) || (f.Impl == "cm" && ek == segproto.Bytes)) {
+						diffs = append(diffs, fmt.Sprintf("%s: map value kind %v for self-encoding %s", p, ek, f.Impl))
+					}
+				} else if tf.Type.Elem().Kind() != vk {
 					diffs = append(diffs, fmt.Sprintf("%s: map value kind %v, want %v", p, tf.Type.Elem().Kind(), vk))
 				} else if f.Val == KMsg {
 					walk(f.Msg, tf.Type.Elem(), p+"[]")
